@@ -163,6 +163,11 @@ def rStep (s : DState) (j : Json) : Except String (DState × Json) := do
     return (s, jOut (jObj [("found", jArr (found.map jChars)), ("sent", jArr (s.payloads.map jChars)),
                            ("equal", Json.bool (found == s.payloads)), ("dicts", jArr dicts),
                            ("lines", jNat lines.length)]))
+  else if op == "scan" then
+    -- the regex of `retrieve` on arbitrary lines (forged markers, noise behind a report, …)
+    let ls ← (← getArr j "lines").mapM fun l => do return cpsToChars (← getCps l)
+    let ls' := if getBoolD j "local" false then localRead (joinNl ls) else ls
+    return (s, jOut (jObj [("found", jArr ((retrieve s.cfg.tag ls').map jChars))]))
   else throw s!"bad-op {op}"
 
 def main : IO Unit := (Machine.mk rInit rStep).main
